@@ -35,6 +35,8 @@ type Proto struct {
 	MTB   uint32 // MaxTraceableBlocks (0 = neotest default 1000)
 	P2PSE bool   // P2PStateExchangeExtensions
 	SSI   int    // StateSyncInterval
+	// TraceOnly is not a protocol setting: the histories of this case are observed on traceable blocks only
+	TraceOnly bool
 }
 
 // Local is the node-local part of the configuration.
@@ -79,6 +81,8 @@ type History struct {
 	Probes []*transaction.Transaction
 	Cfg    config.Blockchain // the producer's configuration with defaults filled in
 	MTB    uint32
+	// TraceOnly: block observations only cover the last MaxTraceableBlocks blocks
+	TraceOnly bool
 }
 
 func (h *History) N() uint32 { return uint32(len(h.Blocks)) }
@@ -230,7 +234,7 @@ func (c *counters) add(k string, n int) { c.m[k] += n }
 func buildHistory(r *prng.R, p Proto, n int, o *counters, withTxs func(i int) bool, want func(h uint32) bool) (h *History, err error) {
 	t := &tb{}
 	defer t.done()
-	h = &History{Proto: p}
+	h = &History{Proto: p, TraceOnly: p.TraceOnly}
 	err = try(func() {
 		bc, val := chain.NewSingleWithOptions(t, &chain.Options{
 			BlockchainConfigHook: cfgHook(p, Local{}),
